@@ -15,6 +15,8 @@ which the check drives it (one JSON object per line, request/response).
  * answers: ok (process normally) | http (status/body/ctype, no processing) | raw200 (200 with the given body) |
    reset (RST, no answer) | close (FIN, no answer) | lost (process, then RST instead of answering) |
    truncate (headers promise more bytes than are sent, then FIN) | drop (forget a dead connection).
+ * quiesce: wait until no connection is in progress, so that the latch is read only after the host has finished with
+   whatever the (killed) agent sent last.
  * spawn/wait/kill: the host can start the agent processes itself (it already lives in the namespace), e.g. under
    strace with kill injection; it is their parent and outlives them.
 """
@@ -53,6 +55,7 @@ class State:
         self.decisions = {}             # id -> action
         self.children = {}
         self.epoch = 0
+        self.active = 0                 # connections being handled right now
 
 
 S = State()
@@ -225,6 +228,16 @@ def send_http(conn, status, ctype, body, truncate=False):
 
 class Handler(socketserver.BaseRequestHandler):
     def handle(self):
+        with S.lock:
+            S.active += 1
+        try:
+            self.handle_one()
+        finally:
+            with S.lock:
+                S.active -= 1
+                S.lock.notify_all()
+
+    def handle_one(self):
         conn = self.request
         conn.settimeout(30)
         try:
@@ -366,6 +379,20 @@ def control(cmd):
             S.decisions[cmd["id"]] = cmd.get("action", {"a": "ok"})
             S.lock.notify_all()
             return {"ok": True}
+    if op == "quiesce":          # wait until no connection is being handled (e.g. after the agent was killed)
+        t_end = time.time() + float(cmd.get("timeout", 5))
+        while True:
+            with S.lock:
+                while S.active > 0:
+                    left = t_end - time.time()
+                    if left <= 0:
+                        return {"quiet": False, "active": S.active}
+                    S.lock.wait(left)
+                seq = S.seq
+            time.sleep(0.01)     # a connection the kernel completed but the listener has not accepted yet
+            with S.lock:
+                if S.active == 0 and S.seq == seq:
+                    return {"quiet": True}
     if op == "state":
         with S.lock:
             return snapshot()
